@@ -275,28 +275,35 @@ Proof.
 Qed.
 
 (* ---------- root boxes ---------- *)
-(* A particle in the half-open box [-box/2, box/2) is placed in a root box whose cell contains it, and the slot
-   index and the index used for the geometry of a new root cell agree. *)
-Lemma root_inside_1d : forall h n x, 0 < h -> 0 < n -> - (n * h) <= x < n * h ->
+(* A particle in the CLOSED box [-box/2, box/2] is placed in a root box whose cell contains it, and the slot index and the
+   index used for the geometry of a new root cell agree (with the clamp of /repo da62396 the upper border x = +box/2 goes
+   to the last root box). *)
+Lemma root_inside_1d : forall h n x, 0 < h -> 0 < n -> - (n * h) <= x <= n * h ->
   root_idx h n x = root_idx_new h n x /\ 0 <= root_idx h n x < n /\
   Z.abs (x - root_centre h n (root_idx h n x)) <= h.
 Proof.
-  intros h n x Hh Hn Hx. unfold root_idx, root_idx_new, root_centre, root_fl.
+  intros h n x Hh Hn Hx. unfold root_idx, root_idx_new, root_centre, root_fl, root_clamp.
   set (q := (x + n * h) / (2 * h)).
   pose proof (Z.div_mod (x + n * h) (2 * h) ltac:(lia)) as DM. fold q in DM.
   pose proof (Z.mod_pos_bound (x + n * h) (2 * h) ltac:(lia)) as MB.
   set (r := (x + n * h) mod (2 * h)) in *.
   assert (Q0 : 0 <= q) by (apply Z.div_pos; lia).
-  assert (Q1 : q < n) by (apply Z.div_lt_upper_bound; nia).
-  assert (R1 : Z.rem q n = q) by (apply Z.rem_small; lia).
-  assert (R2 : Z.rem (q + n) n = q).
-  { rewrite Z.rem_mod_nonneg by lia. replace (q + n) with (q + 1 * n) by ring. rewrite Z.mod_add by lia.
-    apply Z.mod_small. lia. }
-  rewrite R1, R2. split; [reflexivity|]. split; [lia|]. nia.
+  assert (Q1 : q <= n) by (apply Z.div_le_upper_bound; nia).
+  destruct (q =? n) eqn:E.
+  - assert (q = n) by lia. assert (R1 : Z.rem (n - 1) n = n - 1) by (apply Z.rem_small; lia).
+    assert (R2 : Z.rem (n - 1 + n) n = n - 1).
+    { rewrite Z.rem_mod_nonneg by lia. replace (n - 1 + n) with (n - 1 + 1 * n) by ring. rewrite Z.mod_add by lia. apply Z.mod_small. lia. }
+    rewrite R1, R2. split; [reflexivity|]. split; [lia|]. nia.
+  - assert (q < n) by lia. assert (R1 : Z.rem q n = q) by (apply Z.rem_small; lia).
+    assert (R2 : Z.rem (q + n) n = q).
+    { rewrite Z.rem_mod_nonneg by lia. replace (q + n) with (q + 1 * n) by ring. rewrite Z.mod_add by lia. apply Z.mod_small. lia. }
+    rewrite R1, R2. split; [reflexivity|]. split; [lia|]. nia.
 Qed.
 
-(* at the upper border x = +box/2 (inside the box by reb_boundary_particle_is_in_box, which is closed) the
-   index wraps to root box 0: with more than one root box the particle is NOT inside the cell it is put in *)
-Lemma root_upper_border_refuted : exists h n x, 0 < h /\ 0 < n /\ - (n * h) <= x <= n * h /\
-  ~ Z.abs (x - root_centre h n (root_idx h n x)) <= h.
-Proof. exists 1, 2, 2. vm_compute. repeat split; try discriminate. intro H. apply H. reflexivity. Qed.
+(* the upper border is in the last root box *)
+Lemma root_upper_border_last : forall h n, 0 < h -> 0 < n -> root_idx h n (n * h) = n - 1.
+Proof.
+  intros h n Hh Hn. unfold root_idx, root_fl, root_clamp.
+  assert (E : (n * h + n * h) / (2 * h) = n) by (symmetry; apply Z.div_unique_exact; [lia|ring]). rewrite E.
+  rewrite Z.eqb_refl. rewrite Z.rem_mod_nonneg by lia. replace (n - 1 + n) with (n - 1 + 1 * n) by ring. rewrite Z.mod_add by lia. apply Z.mod_small. lia.
+Qed.
